@@ -18,7 +18,7 @@ from ..core import Ctx, stable_hash
 from ..par import pmap
 from ..tlc import MachineryError, make_cfg, run_tlc
 
-INVS = ["RouterEquiv", "IncreasingPerFrame", "NestedBehind", "ChainOnce", "NoTwiceOnSuccess", "FirstMatch", "EmitCase"]
+INVS = ["RouterEquiv", "IncreasingPerFrame", "NestedBehind", "ChainOnce", "NoTwiceOnSuccess", "FirstMatch", "AbortIsLast", "EmitCase"]
 
 
 # ------------------------------------------------------------------------------------------------
@@ -56,10 +56,13 @@ def env() -> dict[str, Any]:
     return _E
 
 
-def unnorm_types() -> list:
-    """request types that normalize_type refuses (spec: Req = "U")"""
+def unnorm_types(req: str = "U") -> list:
+    """request types that normalize_type refuses (spec: Req = "U"); Req = "F": the one the builtin recipe refuses terminally
+    (ForwardRefEvaluatingProvider: 'ForwardRef can not be evaluated')"""
     typing = env()["typing"]
-    return [typing.Optional, typing.Union, typing.Final, "Zzz", typing.ForwardRef("Zzz"), typing.List["Zzz"], typing.ClassVar]
+    if req == "F":
+        return [typing.ForwardRef("Zzz"), typing.ForwardRef("Undefined.name")]
+    return [typing.Optional, typing.Union, typing.Final, "Zzz", typing.List["Zzz"], typing.ClassVar]
 
 
 def preds_for(cls: str, field_variant: bool, req: str = "A") -> list:
@@ -72,7 +75,7 @@ def preds_for(cls: str, field_variant: bool, req: str = "A") -> list:
         return [str, P[str]]
     if cls == "exC":
         return [None, P[None], type(None)]          # the exact origin None
-    if req == "U":
+    if req in ("U", "F"):
         if cls == "predY":
             return [P.ANY, ~P[str], ~P[int], P.ANY & ~P[str], ~(P[int] | P[str]), ~P[None]]
         if cls == "predN":
@@ -112,6 +115,8 @@ def make_marker(idx: int, kind: str, log: list, req_name: str, probe):
                     return fn(idx)
                 if kind == "decline":
                     raise CannotProvide(f"marker {idx} declines")
+                if kind == "abort":
+                    raise CannotProvide(f"marker {idx} refuses terminally", is_terminal=True)
                 if kind == "deleg":
                     nxt = mediator.provide_from_next()
                     return lambda x: fn(idx)(nxt(x))
@@ -134,7 +139,7 @@ def build_and_run(case: dict, gseed: int) -> dict:
     side = rng.choice(["load", "dump"])
     req = case.get("req", "A")
     field_variant = tail and rng.random() < 0.4 and req == "A"
-    unnorm = unnorm_types()
+    unnorm = unnorm_types(req)
     req_tp = int if req == "A" else unnorm[rng.randrange(len(unnorm))]
     req_name = "LoaderRequest" if side == "load" else "DumperRequest"
     facade = e["loader"] if side == "load" else e["dumper"]
@@ -244,6 +249,8 @@ def build_nested_and_run(case: dict, gseed: int) -> dict:
                         log.append(idx)
                     if kind == "decline":
                         raise CannotProvide(f"marker {idx} declines")
+                    if kind == "abort":
+                        raise CannotProvide(f"marker {idx} refuses terminally", is_terminal=True)
                     if kind in ("func", "plain"):
                         if request.last_loc.type is int:
                             opts[idx] = mediator.mandatory_provide(StrictCoercionRequest(loc_stack=request.loc_stack))
@@ -418,6 +425,8 @@ def build_and_run_logged(case: dict, gseed: int) -> dict:
                         return lambda x: x + [idx]
                     if kind == "decline":
                         raise CannotProvide
+                    if kind == "abort":
+                        raise CannotProvide(is_terminal=True)
                     nxt = mediator.provide_from_next()
                     return lambda x: nxt(x) + [idx]
                 return [(e["LoaderRequest"], e["AlwaysTrueRequestChecker"](), handler)]
@@ -464,8 +473,8 @@ def run(ctx: Ctx) -> None:
                        "predicate concretisations in c09.preds_for belong to the stated checker class (checked by C10)"]
     max_len = 3 if quick else 4
     total_cases = 0
-    for tail, req in ((False, "A"), (True, "A"), (False, "U"), (True, "U")):
-        cfg = make_cfg(constants=dict(MaxLen=max_len if req == "A" or not quick else 2, ResetComboOnSingle=True, WithTail=tail, Req=f'"{req}"', EmitCases=True),
+    for tail, req in ((False, "A"), (True, "A"), (False, "U"), (True, "U"), (True, "F")):
+        cfg = make_cfg(constants=dict(MaxLen=max_len if req != "U" or not quick else 2, ResetComboOnSingle=True, WithTail=tail, Req=f'"{req}"', EmitCases=True),
                        invariants=INVS)
         res = run_tlc(ctx.scratch, "Router", cfg, tag=f"Router_tail{int(tail)}_{req}", coverage=quick, timeout_s=3000)
         ctx.add_tlc(res, f"exhaustive MaxLen={max_len} WithTail={tail} request={req}")
@@ -474,7 +483,7 @@ def run(ctx: Ctx) -> None:
         cases = []
         for r in res.records():
             cases.append(r)
-            nontriv = any(p["c"] in (("exA", "predY") if req == "A" else ("predY",)) for p in r["rec"])
+            nontriv = any(p["c"] in (("exA", "predY") if req == "A" else ("predY",)) for p in r["rec"]) or req == "F"
             ctx.case(_short(r["rec"]) + str(tail) + req, nontrivial=nontriv,
                      sample={"recipe": _short(r["rec"]), "tail": tail, "expected_log": r["log"], "expected_term": r["term"]}
                      if len(r["rec"]) == max_len and nontriv and len(r["log"]) > 2 else None)
